@@ -123,6 +123,11 @@ func getHorizontalWindow(state ListBoxState, padding, width, height int) (int, i
 		height--
 	}
 	selected, lastFirst := state.Selected, state.First
+	if selected < 0 {
+		selected = 0
+	} else if selected >= n {
+		selected = n - 1
+	}
 	// Start with the column containing the selected item, move left until
 	// either the width is exhausted, or lastFirst has been reached.
 	first := selected / height * height
